@@ -260,6 +260,11 @@ def run(ctx):
             ctx.binding_demo("Trace_GraphStruct", "Trace_GraphStruct.cfg", clean, corrupt, limit=60)
         # ---- REPO
         f_suite.result()
+        if gx.NOT_OBSERVABLE:
+            # private attributes this version of lena does not have: those comparisons were left out
+            ctx.extra["not_observable"] = dict(gx.NOT_OBSERVABLE)
+            ctx.assume("reduced coverage: private attributes %s are not present in this version of lena; what is "
+                       "read from them was not compared" % sorted(gx.NOT_OBSERVABLE))
     finally:
         pool.shutdown(wait=True)
     return ctx.finish(
